@@ -113,6 +113,26 @@ pub fn run(ctx: &mut Ctx) {
             }).collect());
             let perm_cbor = arr(perm.iter().map(|(dt, m)| arr(vec![text(dt), nss_cbor(&m.clone().into_iter().collect::<Vec<_>>())])).collect());
             let permitted: PermittedItems = perm.clone();
+            // one round in four: an earlier answer to the same request was prepared with EVERYTHING permitted and then
+            // abandoned (before signing, or signed but never retrieved); the answer sent must be the later one's
+            let abandon = rng.gen_range(0..8);
+            if abandon < 2 {
+                let all: PermittedItems = DTS.iter().map(|dt| (dt.to_string(), NSS.iter().map(|ns| (ns.to_string(), IDS.iter().map(|i| i.to_string()).collect())).collect())).collect();
+                let _ = catch(|| {
+                    dev.prepare_response(&items, all);
+                    if abandon == 1 {
+                        let mut guard = 0;
+                        while let Some((_, payload)) = dev.get_next_signature_payload().map(|(u, p)| (u, p.to_vec())) {
+                            let dt = crate::trace::doc_type_of_payload(&payload).unwrap_or_default();
+                            let sig: Vec<u8> = match keys.get(&dt) { Some(k) => { let s: p256::ecdsa::Signature = k.sign(&payload); s.to_vec() } None => vec![0; 64] };
+                            dev.submit_next_signature(sig).ok();
+                            guard += 1;
+                            if guard > 10 { break; }
+                        }
+                    }
+                });
+                ctx.count(if abandon == 0 { "round:earlier-answer-abandoned-unsigned" } else { "round:earlier-answer-abandoned-signed" });
+            }
             let r = catch(|| {
                 dev.prepare_response(&items, permitted);
                 let mut guard = 0;
